@@ -12,6 +12,18 @@ from .abstract import Prior
 NameValue = Tuple[str, Union[Prior, float]]
 
 
+def _position_key(name: str):
+    """
+    Sort key placing tuple members in the order of their position. Members are
+    named {tuple_name}_{position} so the position must be compared as a number
+    (as a string, position 10 would sort before position 2).
+    """
+    prefix, _, suffix = name.rpartition("_")
+    if suffix.isdigit():
+        return prefix, int(suffix), name
+    return name, -1, name
+
+
 class TuplePrior(ModelObject):
     """
     A prior comprising one or more priors in a tuple
@@ -56,7 +68,7 @@ class TuplePrior(ModelObject):
                     lambda t: isinstance(t[1], float) and t[0] != "id",
                     self.__dict__.items(),
                 ),
-                key=lambda tup: tup[0],
+                key=lambda tup: _position_key(tup[0]),
             )
         )
 
@@ -82,7 +94,8 @@ class TuplePrior(ModelObject):
             map(
                 convert,
                 sorted(
-                    self.prior_tuples + self.instance_tuples, key=lambda tup: tup.name
+                    self.prior_tuples + self.instance_tuples,
+                    key=lambda tup: _position_key(tup.name),
                 ),
             )
         )
@@ -114,7 +127,10 @@ class TuplePrior(ModelObject):
 
         This means they are in the order they should be in the tuple.
         """
-        return sorted(self.prior_tuples + self.instance_tuples, key=lambda t: t[0])
+        return sorted(
+            self.prior_tuples + self.instance_tuples,
+            key=lambda t: _position_key(t[0]),
+        )
 
     def _with_paths(self, tree: Dict[str, dict]) -> "TuplePrior":
         """
